@@ -27,7 +27,6 @@ PROP = {
         "jr/jalr theorem assumes the slot leaves the target register unchanged (complement = known finding kf:mips-jr-jalr-target-read-after-slot)",
         "PowerPC: spec + sampled comparison only [D]; no mirror, no theorem",
         "accepted encodings with non-canonical reserved fields are listed (extra.mips_sweep_accepted) but not judged",
-        "staged sensitivity experiments not run (see notes/C02.md)",
     ],
     "level_text": "MIPS: unbounded Coq theorems (all register/immediate fields, all states, all embeddings) that a Gallina mirror of the semantics builders and of the "
                   "delay-slot sequencing produces IL whose reference-semantics run equals a manual-derived ISA specification, for 39 non-control forms and all 12 branch/jump "
